@@ -40,6 +40,13 @@ func (in *Interp) dynOverride(fn *ssa.Function) (Value, bool) {
 }
 
 func strArg(v Value) string {
+	if l, ok := v.(*LazyStr); ok {
+		if l.forced != nil {
+			v = l.forced
+		} else {
+			return "<formatted>"
+		}
+	}
 	s, ok := v.(string)
 	if !ok {
 		panic(fmt.Sprintf("harness API: expected concrete string, got %T", v))
@@ -265,6 +272,20 @@ func init() {
 		}
 		r := in.crcLog[k]
 		return Tuple{in.st.Const(32, uint64(r.poly)), in.st.Const(64, uint64(r.n))}, ctlNext
+	})
+	regAPI("vItoa", func(in *Interp, th *Thread, fr *Frame, args []Value, call ssa.Instruction) (Value, ctl) {
+		n := args[0].(*Term)
+		if n.IsConst() {
+			return fmt.Sprint(n.S()), ctlNext
+		}
+		return &LazyStr{parts: []Value{&lazyItoa{n: n}}}, ctlNext
+	})
+	regAPI("vCRCResult", func(in *Interp, th *Thread, fr *Frame, args []Value, call ssa.Instruction) (Value, ctl) {
+		k := in.intArg(th, args[0])
+		if k < 0 || k >= len(in.crcLog) {
+			return in.st.Const(32, 0), ctlNext
+		}
+		return in.crcLog[k].res, ctlNext
 	})
 	regAPI("vYield", func(in *Interp, th *Thread, fr *Frame, args []Value, call ssa.Instruction) (Value, ctl) {
 		return nil, ctlNext
